@@ -35,6 +35,14 @@ var c18Files = []c18File{
 	{"textio", "zio/textio/writer.go", regexp.MustCompile(`^fmt\.Fprintln$|^w\.writeRecord$`)},
 	{"jsonio", "zio/jsonio/writer.go", regexp.MustCompile(`^w\.writer\.Flush$`)},
 	{"vng", "vng/writer.go", regexp.MustCompile(`^w\.writer\.Write$|^w\.finalize$|^w\.dynamic\.Emit$|^io\.Copy$`)},
+	{"vngenc", "vng/nulls.go", regexp.MustCompile(`\.Emit$|^w\.Write$`)},
+	{"vngenc", "vng/primitive.go", regexp.MustCompile(`\.Emit$|^w\.Write$`)},
+	{"vngenc", "vng/record.go", regexp.MustCompile(`\.Emit$|^w\.Write$`)},
+	{"vngenc", "vng/field.go", regexp.MustCompile(`\.Emit$|^w\.Write$`)},
+	{"vngenc", "vng/array.go", regexp.MustCompile(`\.Emit$|^w\.Write$`)},
+	{"vngenc", "vng/map.go", regexp.MustCompile(`\.Emit$|^w\.Write$`)},
+	{"vngenc", "vng/union.go", regexp.MustCompile(`\.Emit$|^w\.Write$`)},
+	{"vngenc", "vng/dynamic.go", regexp.MustCompile(`\.Emit$|^w\.Write$`)},
 	{"lakedata", "lake/data/writer.go", regexp.MustCompile(`^w\.writer\.(Write|EndStream|Close)$|^w\.seekIndex\.(Write|Close)$|^w\.(writeIndex|flushSeekIndex|WriteWithKey)$`)},
 }
 
@@ -96,13 +104,76 @@ func c18Sites(f *file, fd *ast.FuncDecl, callee *regexp.Regexp) ([][2]string, er
 		})
 		return found
 	}
-	// laterHandsBack: after position p, is variable v returned, or copied into a variable that
-	// is returned (close idiom), inside fd?
-	var laterHandsBack func(p token.Pos, v string, depth int) bool
-	laterHandsBack = func(p token.Pos, v string, depth int) bool {
+	// parent map for path reasoning
+	parent := map[ast.Node]ast.Node{}
+	{
+		var stack []ast.Node
+		ast.Inspect(fd.Body, func(x ast.Node) bool {
+			if x == nil {
+				stack = stack[:len(stack)-1]
+				return true
+			}
+			if len(stack) > 0 {
+				parent[x] = stack[len(stack)-1]
+			}
+			stack = append(stack, x)
+			return true
+		})
+	}
+	// enclosing returns the chain of blocks (innermost first) around n.
+	enclosing := func(n ast.Node) []ast.Node {
+		var out []ast.Node
+		for x := parent[n]; x != nil; x = parent[x] {
+			switch x.(type) {
+			case *ast.BlockStmt, *ast.CaseClause:
+				out = append(out, x)
+			}
+		}
+		out = append(out, fd.Body)
+		return out
+	}
+	// unconditionalFor: node r (a return or an assignment) is reached, from one of the blocks
+	// in chain, without passing under a condition that does not mention v: walking up from r
+	// we may only cross `if` statements whose condition mentions v (or block/else wrappers)
+	// until we hit a block of the chain.
+	unconditionalFor := func(r ast.Node, chain []ast.Node, v string) bool {
+		inChain := func(b ast.Node) bool {
+			for _, c := range chain {
+				if c == b {
+					return true
+				}
+			}
+			return false
+		}
+		for x := parent[r]; x != nil; x = parent[x] {
+			switch t := x.(type) {
+			case *ast.BlockStmt:
+				if inChain(t) {
+					return true
+				}
+			case *ast.IfStmt:
+				if !mentions(t.Cond, v) {
+					return false
+				}
+			case *ast.CaseClause, *ast.SwitchStmt, *ast.TypeSwitchStmt, *ast.ForStmt, *ast.RangeStmt, *ast.SelectStmt, *ast.FuncLit:
+				if inChain(x) {
+					return true
+				}
+				return false
+			}
+		}
+		return false
+	}
+	// laterHandsBack: after position p (the statement at node at), is variable v handed back:
+	// returned, or copied into a variable that is returned (close idiom), on a path that is
+	// unconditional with respect to anything but v itself?
+	var laterHandsBack func(at ast.Node, v string, depth int) bool
+	laterHandsBack = func(at ast.Node, v string, depth int) bool {
 		if depth > 3 {
 			return false
 		}
+		chain := enclosing(at)
+		p := at.Pos()
 		ok := false
 		ast.Inspect(fd.Body, func(x ast.Node) bool {
 			if ok || x == nil {
@@ -110,7 +181,7 @@ func c18Sites(f *file, fd *ast.FuncDecl, callee *regexp.Regexp) ([][2]string, er
 			}
 			switch s := x.(type) {
 			case *ast.ReturnStmt:
-				if s.Pos() > p {
+				if s.Pos() > p && unconditionalFor(s, chain, v) {
 					for _, r := range s.Results {
 						if mentions(r, v) {
 							ok = true
@@ -121,7 +192,7 @@ func c18Sites(f *file, fd *ast.FuncDecl, callee *regexp.Regexp) ([][2]string, er
 				// x = v  (e.g. `err = closeErr`, `firstErr = err`)
 				if s.Pos() > p && len(s.Lhs) == 1 && len(s.Rhs) == 1 {
 					if id, isID := s.Rhs[0].(*ast.Ident); isID && id.Name == v {
-						if l, isL := s.Lhs[0].(*ast.Ident); isL && l.Name != v && laterHandsBack(s.Pos(), l.Name, depth+1) {
+						if l, isL := s.Lhs[0].(*ast.Ident); isL && l.Name != v && laterHandsBack(s, l.Name, depth+1) {
 							ok = true
 						}
 					}
@@ -179,7 +250,7 @@ func c18Sites(f *file, fd *ast.FuncDecl, callee *regexp.Regexp) ([][2]string, er
 					ast.Inspect(ifBody, func(x ast.Node) bool {
 						if a, ok := x.(*ast.AssignStmt); ok && len(a.Lhs) == 1 && len(a.Rhs) == 1 {
 							if id, ok := a.Rhs[0].(*ast.Ident); ok && id.Name == v {
-								if l, ok := a.Lhs[0].(*ast.Ident); ok && laterHandsBack(a.Pos(), l.Name, 0) {
+								if l, ok := a.Lhs[0].(*ast.Ident); ok && laterHandsBack(a, l.Name, 0) {
 									handed = true
 								}
 							}
@@ -190,7 +261,7 @@ func c18Sites(f *file, fd *ast.FuncDecl, callee *regexp.Regexp) ([][2]string, er
 						h = "returned"
 					}
 				}
-			} else if laterHandsBack(as.Pos(), v, 0) {
+			} else if laterHandsBack(as, v, 0) {
 				h = "returned"
 			}
 		}
